@@ -97,7 +97,7 @@ class Rec:
     __slots__ = (
         "cid", "n", "kind", "tidx", "event", "source", "target", "state", "cur",
         "active", "tag", "args", "ukw", "children", "ended", "value", "sent",
-        "seq_begin", "seq_end", "depth", "thread",
+        "seq_begin", "seq_end", "depth", "thread", "mid",
     )
 
     def __init__(self, cid, n=0, kind="act", tidx=None, event=None, source=None, target=None,
@@ -123,6 +123,7 @@ class Rec:
         self.seq_end = -1
         self.depth = None
         self.thread = None
+        self.mid = None
 
     def brief(self):
         return (f"{self.cid[0]}.{self.cid[1]}[t{self.tidx} ev={self.event} {self.source}->"
@@ -233,6 +234,7 @@ class Env:
         if self.record_thread:
             import threading
             rec.thread = threading.get_ident()
+            rec.mid = id(sm) if sm is not None else None
         if sm is not None:
             try:
                 rec.cur = sm.current_state_value
